@@ -29,20 +29,21 @@ type Expr struct {
 }
 
 type Stmt struct {
-	K       string // local localfunc funcstmt assign call do while repeat if numfor genfor return break
-	Names   []string
-	Vals    []*int // local: value known by construction (nil = unknown)
-	Exprs   []*Expr
-	Lhs     []*Expr
-	Fn      *Func
-	Path    []string // funcstmt: a.b.c
-	Method  string   // funcstmt: :m
-	Body    []*Stmt
-	Conds   []*Expr   // if: conditions (if, elseif...)
-	Blocks  [][]*Stmt // if: then-blocks
-	Else    []*Stmt
-	HasElse bool
-	ForVals [4]*int // numfor: index, limit, step, var values
+	K        string // local localfunc funcstmt assign call do while repeat if numfor genfor return break
+	Names    []string
+	Vals     []*int // local: value known by construction (nil = unknown)
+	Exprs    []*Expr
+	Lhs      []*Expr
+	Fn       *Func
+	Path     []string // funcstmt: a.b.c
+	Method   string   // funcstmt: :m
+	Body     []*Stmt
+	Conds    []*Expr   // if: conditions (if, elseif...)
+	Blocks   [][]*Stmt // if: then-blocks
+	Else     []*Stmt
+	HasElse  bool
+	ForVals  [4]*int // numfor: index, limit, step, var values
+	IterSite *Expr   // genfor: stands for the loop instruction that calls the iterator (observed point)
 
 	First, Last int // token range of the whole statement
 }
@@ -478,7 +479,12 @@ func (e *emitter) stmt(s *Stmt) []string {
 				bs[i].Val = s.Vals[i]
 			}
 		}
-		parts = []string{fmt.Sprintf("(IGenFor %s %s %s", coqPts(pts), coqBindings(bs), body)}
+		var iter []*Point
+		if s.IterSite != nil { // gopher gives TFORLOOP the line of the `for` keyword
+			s.IterSite.First, s.IterSite.Last, s.IterSite.Anchor = start, start, start
+			iter = []*Point{s.IterSite.Pt}
+		}
+		parts = []string{fmt.Sprintf("(IGenFor %s %s %s %s", coqPts(pts), coqBindings(bs), coqPts(iter), body)}
 	default:
 		panic("stmt kind " + s.K)
 	}
